@@ -362,6 +362,55 @@ Definition settings_eqb (a b : session) : bool :=
   | _, _ => false
   end.
 
+(* ---- the attached proxy as state: histories of proxy operations ---------------------------
+   c2/u_proxy_single.go NewProxy, c2/proxy.go Proxy.Replace / Proxy.Close, the side effect of
+   writeProxyData (a record whose Proxy is no longer active is dropped when a message that
+   carries the list is written by an active client), c2/mux.go case MvProxy (operation, then the
+   infoProxy echo when the operation succeeded).  addr is the EFFECTIVE bind string (the address
+   argument, or the profile's host when that is empty), prof = MarshalBinary() of the profile. *)
+Inductive pop :=
+| PAttach (name addr prof : list Z)   (* Session.NewProxy: refused while a record is attached (even an inactive one) *)
+| PReplace (addr prof : list Z)       (* Proxy.Replace(addr, profile): the record keeps its name, takes the NEW address and profile *)
+| PClose                              (* Proxy.Close: the record stays attached, inactive *)
+| PWrite (k : Z)                      (* writeDeviceInfo(k): only its side effect on the record *)
+| PTask (o : pop).                    (* the MvProxy task: o, then - when o succeeded - the infoProxy echo *)
+
+Definition set_proxy (s : session) (p : option proxy) : session :=
+  mkSession (s_id s) (s_dev s) (s_jitter s) (s_sleep s) (s_kill s) (s_work s) (s_keys s) (s_client s) p.
+
+Definition writes_proxy_list (k : Z) : bool := (k =? infoProxy) || (k <=? infoRefresh).
+Definition pop_ok (s : session) (o : pop) : bool :=
+  match o with
+  | PAttach _ _ _ => s_client s && (match s_proxy s with None => true | Some _ => false end)
+  | PReplace _ _ => match s_proxy s with Some p => p_active p | None => false end
+  | PClose => match s_proxy s with Some _ => true | None => false end
+  | _ => true
+  end.
+Definition pwrite (s : session) (k : Z) : session :=
+  if s_client s && writes_proxy_list k then
+    match s_proxy s with
+    | Some px => if p_active px then s else set_proxy s None
+    | None => s
+    end
+  else s.
+Fixpoint run_pop (s : session) (o : pop) : session :=
+  match o with
+  | PAttach n a p => if pop_ok s o then set_proxy s (Some (mkProxy n a p true)) else s
+  | PReplace a p =>
+    match s_proxy s with
+    | Some px => if p_active px then set_proxy s (Some (mkProxy (p_name px) a p true)) else s
+    | None => s
+    end
+  | PClose =>
+    match s_proxy s with
+    | Some px => set_proxy s (Some (mkProxy (p_name px) (p_addr px) (p_prof px) false))
+    | None => s
+    end
+  | PWrite k => pwrite s k
+  | PTask o' => if pop_ok s o' then pwrite (run_pop s o') infoProxy else s
+  end.
+Definition run_pops (s : session) (h : list pop) : session := fold_left run_pop h s.
+
 (* ---- correspondence cases ----------------------------------------------------------------
    Long byte strings are described by a generator evaluated here (the harness builds the same
    bytes): byte i of gen_bytes n a b is (a + i*b) mod 256. *)
@@ -421,8 +470,11 @@ Inductive case :=
   (* the same through data.NewReader over a reader delivering the bytes as sp says *)
 | CReadFlat (k : Z) (r0 : session) (input : list Z) (out : robs)      (* arbitrary / damaged input *)
 | CReadStream (k : Z) (r0 : session) (input : src) (out : robs)
-| CTime (srv cli : session) (o : order) (out : res (list Z * session * session)).
+| CTime (srv cli : session) (o : order) (out : res (list Z * session * session))
   (* server setter -> MvTime payload; client handler; echo absorbed: payload, client, server *)
+| CProxyHist (s0 : session) (h : list pop) (k : Z) (r0 : session) (sp : split) (out : bobs) (rd : robs).
+  (* real proxy operations h on the client s0, then writeDeviceInfo(k): bytes, and what r0 reads back
+     through a stream split sp *)
 
 Definition addr_eqb (a b : addr) : bool := (a_hi a =? a_hi b) && (a_lo a =? a_lo b).
 Definition dev_eqb (a b : netdev) : bool :=
@@ -459,4 +511,8 @@ Definition check (c : case) : bool :=
   | CReadFlat k r0 input out => robs_eqb (robs_of len (read_info flat_ops k r0 input)) out
   | CReadStream k r0 input out => robs_eqb (robs_of src_len (read_info stream_ops k r0 input)) out
   | CTime srv cli o out => tobs_eqb (exchange srv cli o) out
+  | CProxyHist s0 h k r0 sp out rd =>
+    let s' := run_pops s0 h in
+    bobs_ok out (write_info k s') &&
+    robs_eqb (robs_of src_len (read_info stream_ops k r0 (split_bytes sp (write_info k s')))) rd
   end.
